@@ -24,6 +24,14 @@ SPEC = {
         "one writer at a time (the engine's write_lock, see C09/C35); any number of readers",
         "the positive theorems hold on the sub-domains stated in Props/C03.v (acquisition with no writer step in flight; no compaction "
         "sink step during the snapshot's lifetime); outside them the property is refuted (known findings K-C03-torn, K-C03-inplace)",
+        "Corr/C03.v `classify` decides the hypotheses of the conditional theorems per generated schedule INSIDE Coq (quiescent acquisition; "
+        "no sink step between acquisition and the read unless the property root was unset) and `ok` requires every read classified safe to "
+        "show exactly spec_of (firstn j h) on the implementation's own observations; the classifier itself is validated on the witnesses "
+        "but not proved equivalent to the theorems' hypotheses for arbitrary schedules",
+        "candidate repair of K-C03-torn prepared and tested but NOT applied (branch conc-c03-publish-lock-candidate in /repo, 20 unguarded "
+        "lines: a publish_lock RwLock held for writing across the publication steps of commit/compaction and for reading while a snapshot "
+        "copies the fields; nervusdb-storage, nervusdb lib, capi, smoke, t106 tests green): applying it requires the model and the driver to "
+        "treat the acquisition as blocking, which was not finished",
         "schedule-level theorem C03_quiescent_snapshot_schedules: acquisition after j whole writer operations run alone, then EVERY "
         "continuation schedule, no compaction among the remaining operations; a quiescent acquisition in the middle of an arbitrary "
         "earlier interleaving with other readers is covered by the harness predicate but not by a Coq classifier over all schedules",
